@@ -51,7 +51,7 @@ type Mutant struct {
 	File   string // relative to /repo
 	Old    string
 	New    string
-	Expect string // glob on obligation key that must become violated/undecided
+	Expect string // glob on obligation key that must become violated/undecided; "!silent" = a behaviour-preserving edit on which NO obligation may fail
 	Nth    int    // which occurrence of Old (0 = must be unique)
 }
 
